@@ -391,6 +391,29 @@ func TestC08(t *testing.T) {
 			}
 		}
 	})
+	// Files that hold next to nothing (a package clause, comments, one import)
+	// crossed with changes that match the one name there is and do every
+	// thing to imports that a change can do.
+	t.Run("tiny-files", func(t *testing.T) {
+		if k != 0 {
+			return
+		}
+		tiny := []string{"package a\n", "// doc\npackage a // trailing\n", "package a\n\nimport \"os\"\n", "package a\n\n// only a comment\n", "package a\n// directly below\n", "package a\n\nimport (\n\t_ \"embed\"\n)\n", "package a", "package a\n\nvar a = 1\n"}
+		heads := []string{"", "+import \"fmt\"\n\n", "+import f \"fmt\"\n\n", "-import \"os\"\n\n", "-import \"os\"\n+import \"io\"\n\n", " import \"os\"\n\n", "-package a\n+package b\n\n", "-package a\n+package b\n\n+import \"fmt\"\n\n", "+import _ \"embed\"\n+import . \"io\"\n\n"}
+		bodies := []string{"-a\n+b\n", "-n\n+n\n", "-n\n+fmt.n\n", "-a\n+fmt.Sprint(a)\n", "-n\n+n.n\n"}
+		for _, tg := range tiny {
+			for _, h := range heads {
+				for _, b := range bodies {
+					cs := &c08Case{Mode: "tiny-file", Patch: []byte("@@\nvar n identifier\n@@\n" + h + b), Target: tg, CLI: len(tg)%3 == 0}
+					sig, msg, stage := evalC08(cs)
+					record(cs, stage)
+					if sig != "" {
+						fail(t, cs, sig, msg)
+					}
+				}
+			}
+		}
+	})
 	// Every hostile constant as a whole patch body and spliced after a valid header.
 	t.Run("hostile", func(t *testing.T) {
 		for i, hc := range c08Hostile {
